@@ -772,27 +772,27 @@ fn ref_qratio_f32(q: u32, q3: u32) -> u8 {
     ((quo as u32) % 16) as u8
 }
 
-//@ h=f_short_main props=C01,C10,C11,C15,C03,C07,C17 cfgs=K1,K3 tier=q t=900 | funcs: inner::Generator<Short>::finalize_with_options, processed_len, DataLengthValidity, naive aggregate_48, FuzzyHash::from_raw | bound: ALL states: 48 symbolic u32 counters (incl. >=2^24, >=2^31), symbolic len (full u32) and tail_len<=4, symbolic checksum, all 32 option settings; gates in order, checksum, length code and body checked, state unchanged by finalize; Q-ratio value not checked here | stubs: <[u32]>::select_nth_unstable -> order statistic of the ghost copy defined by counting (+ explicit monotonicity); FuzzyHashLengthEncoding::new -> its contract (proved by c09_new_total/c09_code_def)
+//@ h=f_short_main props=C01,C10,C11,C15,C03,C07,C17 cfgs=K1,K3 tier=q t=900 native=native_f_short | funcs: inner::Generator<Short>::finalize_with_options, processed_len, DataLengthValidity, naive aggregate_48, FuzzyHash::from_raw | bound: ALL states: 48 symbolic u32 counters (incl. >=2^24, >=2^31), symbolic len (full u32) and tail_len<=4, symbolic checksum, all 32 option settings; gates in order, checksum, length code and body checked, state unchanged by finalize; Q-ratio value not checked here | stubs: <[u32]>::select_nth_unstable -> order statistic of the ghost copy defined by counting (+ explicit monotonicity); FuzzyHashLengthEncoding::new -> its contract (proved by c09_new_total/c09_code_def)
 lemma_f!(f_short_main, GShort, sym_short, 48, 12, None::<u32>, false, 52, 7, false);
-//@ h=f_normal_main props=C01,C10,C11,C15,C03 cfgs=K1 tier=q t=1500 | funcs: inner::Generator<Normal>::finalize_with_options, naive aggregate_128 | bound: as f_short_main with 128 counters, but the three quartiles are ANY q1<=q2<=q3 (superset of the real order statistics; the honest order-statistic model is used on the 48-counter instance of the same generic code) | stubs: select_nth_unstable order-statistic model; FuzzyHashLengthEncoding::new contract
+//@ h=f_normal_main props=C01,C10,C11,C15,C03 cfgs=K1 tier=q t=1500 native=native_f_normal | funcs: inner::Generator<Normal>::finalize_with_options, naive aggregate_128 | bound: as f_short_main with 128 counters, but the three quartiles are ANY q1<=q2<=q3 (superset of the real order statistics; the honest order-statistic model is used on the 48-counter instance of the same generic code) | stubs: select_nth_unstable order-statistic model; FuzzyHashLengthEncoding::new contract
 lemma_f!(f_normal_main, GNormal, sym_normal, 128, 32, None::<u32>, false, 132, 7, true);
-//@ h=f_normall_main props=C01,C10,C11,C15 cfgs=K1 tier=t t=1800 | funcs: inner::Generator<NormalWithLongChecksum>::finalize_with_options | bound: as f_short_main with 128 counters, but the three quartiles are ANY q1<=q2<=q3 (superset of the real order statistics; the honest order-statistic model is used on the 48-counter instance of the same generic code), 3-byte checksum | stubs: select_nth_unstable order-statistic model; FuzzyHashLengthEncoding::new contract
+//@ h=f_normall_main props=C01,C10,C11,C15 cfgs=K1 tier=t t=1800 native=native_f_normall | funcs: inner::Generator<NormalWithLongChecksum>::finalize_with_options | bound: as f_short_main with 128 counters, but the three quartiles are ANY q1<=q2<=q3 (superset of the real order statistics; the honest order-statistic model is used on the 48-counter instance of the same generic code), 3-byte checksum | stubs: select_nth_unstable order-statistic model; FuzzyHashLengthEncoding::new contract
 lemma_f!(f_normall_main, GNormalL, sym_normal_l, 128, 32, None::<u32>, false, 132, 7, true);
-//@ h=f_long_main props=C01,C10,C11,C15 cfgs=K1 tier=t t=3600 | funcs: inner::Generator<Long>::finalize_with_options, naive aggregate_256 | bound: as f_short_main with 256 counters, but the three quartiles are ANY q1<=q2<=q3 (superset of the real order statistics) | stubs: select_nth_unstable order-statistic model; FuzzyHashLengthEncoding::new contract
+//@ h=f_long_main props=C01,C10,C11,C15 cfgs=K1 tier=t t=3600 native=native_f_long | funcs: inner::Generator<Long>::finalize_with_options, naive aggregate_256 | bound: as f_short_main with 256 counters, but the three quartiles are ANY q1<=q2<=q3 (superset of the real order statistics) | stubs: select_nth_unstable order-statistic model; FuzzyHashLengthEncoding::new contract
 lemma_f!(f_long_main, GLong, sym_long, 256, 64, None::<u32>, false, 260, 7, true);
-//@ h=f_longl_main props=C01,C10,C11,C15 cfgs=K1 tier=t t=2400 | funcs: inner::Generator<LongWithLongChecksum>::finalize_with_options | bound: as f_short_main with 256 counters, but the three quartiles are ANY q1<=q2<=q3 (superset of the real order statistics), 3-byte checksum | stubs: select_nth_unstable order-statistic model; FuzzyHashLengthEncoding::new contract
+//@ h=f_longl_main props=C01,C10,C11,C15 cfgs=K1 tier=t t=2400 native=native_f_longl | funcs: inner::Generator<LongWithLongChecksum>::finalize_with_options | bound: as f_short_main with 256 counters, but the three quartiles are ANY q1<=q2<=q3 (superset of the real order statistics), 3-byte checksum | stubs: select_nth_unstable order-statistic model; FuzzyHashLengthEncoding::new contract
 lemma_f!(f_longl_main, GLongL, sym_long_l, 256, 64, None::<u32>, false, 260, 7, true);
-//@ h=f_short_q8 props=C01 cfgs=K1 tier=q t=1200 | funcs: inner::Generator<Short>::finalize_with_options (Q-ratio arithmetic, both modes) | bound: all states with any q1<=q2<=q3<2^8 (equivalence of two full dividers is SAT-hard beyond ~10 bits); integer mode vs the u64 formula, legacy mode vs CBMC's IEEE-754 single-precision semantics of the reference formula | stubs: select_nth_unstable -> any ordered quartiles; FuzzyHashLengthEncoding::new contract | assume: q3 < 256
+//@ h=f_short_q8 props=C01 cfgs=K1 tier=q t=1200 native=native_f_short | funcs: inner::Generator<Short>::finalize_with_options (Q-ratio arithmetic, both modes) | bound: all states with any q1<=q2<=q3<2^8 (equivalence of two full dividers is SAT-hard beyond ~10 bits); integer mode vs the u64 formula, legacy mode vs CBMC's IEEE-754 single-precision semantics of the reference formula | stubs: select_nth_unstable -> any ordered quartiles; FuzzyHashLengthEncoding::new contract | assume: q3 < 256
 lemma_f!(f_short_q8, GShort, sym_short, 48, 12, Some(8u32), true, 52, 0, true);
-//@ h=f_short_qp2 props=C01 cfgs=K1 tier=q t=1800 | funcs: inner::Generator<Short>::finalize_with_options (Q-ratio arithmetic at full width) | bound: any q1<=q2<=q3 with q3 a power of two up to 2^31 (counts >= 2^24 and >= 2^31 included): integer mode vs shift formula on the u64 product, legacy mode vs an integer-only model (32-bit wrapping product, round-to-nearest-even to 24 bits, exact division, truncation) | stubs: select_nth_unstable -> any ordered quartiles; FuzzyHashLengthEncoding::new contract | assume: q3 is a power of two
+//@ h=f_short_qp2 props=C01 cfgs=K1 tier=q t=1800 native=native_f_short | funcs: inner::Generator<Short>::finalize_with_options (Q-ratio arithmetic at full width) | bound: any q1<=q2<=q3 with q3 a power of two up to 2^31 (counts >= 2^24 and >= 2^31 included): integer mode vs shift formula on the u64 product, legacy mode vs an integer-only model (32-bit wrapping product, round-to-nearest-even to 24 bits, exact division, truncation) | stubs: select_nth_unstable -> any ordered quartiles; FuzzyHashLengthEncoding::new contract | assume: q3 is a power of two
 lemma_f!(f_short_qp2, GShort, sym_short, 48, 12, Some(100u32), true, 52, 0, true);
-//@ h=f_short_qm16 props=C01 cfgs=K1 tier=t t=3600 | funcs: inner::Generator<Short>::finalize_with_options (integer Q-ratio arithmetic at full width) | bound: any q1<=q2<=q3 with q3 = m<<s, m<16; integer mode only | stubs: as f_short_qp2 | assume: q3 = m << s with m < 16, integer mode
+//@ h=f_short_qm16 props=C01 cfgs=K1 tier=t t=3600 native=native_f_short | funcs: inner::Generator<Short>::finalize_with_options (integer Q-ratio arithmetic at full width) | bound: any q1<=q2<=q3 with q3 = m<<s, m<16; integer mode only | stubs: as f_short_qp2 | assume: q3 = m << s with m < 16, integer mode
 lemma_f!(f_short_qm16, GShort, sym_short, 48, 12, Some(101u32), true, 52, 0, true);
-//@ h=f_short_q10 props=C01 cfgs=K1 tier=t t=3000 | funcs: inner::Generator<Short>::finalize_with_options (Q-ratio arithmetic) | bound: third quartile < 2^10 | stubs: as f_short_q8 | assume: q3 < 1024
+//@ h=f_short_q10 props=C01 cfgs=K1 tier=t t=3000 native=native_f_short | funcs: inner::Generator<Short>::finalize_with_options (Q-ratio arithmetic) | bound: third quartile < 2^10 | stubs: as f_short_q8 | assume: q3 < 1024
 lemma_f!(f_short_q10, GShort, sym_short, 48, 12, Some(10u32), true, 52, 0, true);
-//@ h=f_normal_qp2 props=C01 cfgs=K1 tier=t t=3000 | funcs: inner::Generator<Normal>::finalize_with_options (Q-ratio arithmetic at full width) | bound: q3 a power of two | stubs: as f_short_qp2 | assume: q3 is a power of two
+//@ h=f_normal_qp2 props=C01 cfgs=K1 tier=t t=3000 native=native_f_normal | funcs: inner::Generator<Normal>::finalize_with_options (Q-ratio arithmetic at full width) | bound: q3 a power of two | stubs: as f_short_qp2 | assume: q3 is a power of two
 lemma_f!(f_normal_qp2, GNormal, sym_normal, 128, 32, Some(100u32), true, 132, 0, true);
-//@ h=f_long_q8 props=C01 cfgs=K1 tier=t t=3000 | funcs: inner::Generator<Long>::finalize_with_options (Q-ratio arithmetic) | bound: third quartile < 2^8 | stubs: as f_short_q8 | assume: q3 < 256
+//@ h=f_long_q8 props=C01 cfgs=K1 tier=t t=3000 native=native_f_long | funcs: inner::Generator<Long>::finalize_with_options (Q-ratio arithmetic) | bound: third quartile < 2^8 | stubs: as f_short_q8 | assume: q3 < 256
 lemma_f!(f_long_q8, GLong, sym_long, 256, 64, Some(8u32), true, 260, 0, true);
 
 // ------------------------------------------------------------------ C11: length arithmetic
@@ -1091,3 +1091,117 @@ macro_rules! c18_gen {
 c18_gen!(c18_gen_short, crate::hashes::Short, 6, 48, 52);
 //@ h=c18_gen_longl props=C18,C17 cfgs=K1 tier=t t=3000 | funcs: Generator<LongWithLongChecksum>::{new, update, processed_len, clone, finalize_with_options, finalize} | bound: pieces of 5 and 3 bytes, all option settings | stubs: as c18_gen_short
 c18_gen!(c18_gen_longl, crate::hashes::LongWithLongChecksum, 5, 256, 260);
+
+// ------------------------------------------------------------------ native confirmation of F
+//
+// Kani's playback generator cannot hold the counterexample trace of the finalize lemmas in memory
+// (>52 GB), so a failing `f_*` harness is confirmed natively by this sweep instead: the real
+// `finalize_with_options` against the full reference (quartiles by sorting, gates, length code,
+// Q ratios in both modes, body) over all 32 option settings x boundary lengths x bucket patterns.
+#[cfg(test)]
+fn native_ref_len_code(total: u32) -> u8 {
+    let mut i = 0;
+    while i < 170 {
+        if total <= REF_TOPVAL[i] {
+            return i as u8;
+        }
+        i += 1;
+    }
+    255
+}
+
+#[cfg(test)]
+macro_rules! native_f {
+    ($name:ident, $ty:ty, $nb:literal, $sb:literal, $ck:literal) => {
+        #[test]
+        fn $name() {
+            let lens: [(u32, u32); 22] = [
+                (0, 0), (0, 3), (0, 4), (5, 4), (6, 4), (45, 4), (46, 4), (123, 4), (124, 4),
+                (125, 4), (1000, 4), (4_224_281_211, 4), (4_224_281_212, 4), (4_224_281_213, 4),
+                (u32::MAX - 7, 4), (u32::MAX - 4, 4), (u32::MAX - 3, 4), (u32::MAX - 3, 0),
+                (16_777_300, 4), (2_147_483_700, 4), (100, 4), (127, 1),
+            ];
+            let mut pats: Vec<[u32; $nb]> = Vec::new();
+            pats.push([0; $nb]);
+            pats.push([1; $nb]);
+            let mut ramp = [0u32; $nb];
+            let mut sparse = [0u32; $nb];
+            let mut huge = [0u32; $nb];
+            let mut mixed = [0u32; $nb];
+            for i in 0..$nb {
+                ramp[i] = i as u32;
+                sparse[i] = if i % 3 == 0 { (i as u32 * 7919) % 97 + 1 } else { 0 };
+                huge[i] = 0x0100_0000u32.wrapping_mul(i as u32 + 1).wrapping_add(0x7fff_fff0);
+                mixed[i] = if i < $nb / 2 { 43_000_000 + i as u32 } else { 90_000_000 + 3 * i as u32 };
+            }
+            pats.push(ramp);
+            pats.push(sparse);
+            pats.push(huge);
+            pats.push(mixed);
+            for pat in pats.iter() {
+                for &(len, tl) in lens.iter() {
+                    for opt in 0..32u32 {
+                        let (cons, pint, small, half, quarter) =
+                            (opt & 1 != 0, opt & 2 != 0, opt & 4 != 0, opt & 8 != 0, opt & 16 != 0);
+                        let mut g = <$ty>::default();
+                        g.buckets.buckets[..$nb].copy_from_slice(pat);
+                        g.len = len;
+                        g.tail_len = tl;
+                        g.checksum = FuzzyHashChecksumData::from_raw(&[0x21; $ck]);
+                        let mut o = GeneratorOptions::new();
+                        o.length_processing_mode(if cons {
+                            DataLengthProcessingMode::Conservative
+                        } else {
+                            DataLengthProcessingMode::Optimistic
+                        })
+                        .pure_integer_qratio_computation(pint)
+                        .allow_small_size_files(small)
+                        .allow_statistically_weak_buckets_half(half)
+                        .allow_statistically_weak_buckets_quarter(quarter);
+                        let r = g.finalize_with_options(&o);
+                        let mut sorted = *pat;
+                        sorted.sort_unstable();
+                        let (mut q1, mut q2, mut q3) =
+                            (sorted[$nb / 4 - 1], sorted[$nb / 2 - 1], sorted[3 * $nb / 4 - 1]);
+                        let nonzero = pat.iter().filter(|&&x| x != 0).count();
+                        let total = len as u64 + tl as u64;
+                        let expect = ref_gates(total, $nb, q3, nonzero, cons, small, half, quarter);
+                        match (r, expect) {
+                            (Err(e), Err(x)) => assert_eq!(e, x, "len {len}+{tl} opt {opt:#x}"),
+                            (Ok(h), Ok(())) => {
+                                if q3 == 0 {
+                                    q1 = 1;
+                                    q2 = 1;
+                                    q3 = 1;
+                                }
+                                assert_eq!(h.checksum().data()[..], [0x21u8; $ck][..]);
+                                assert_eq!(h.length().value(), native_ref_len_code(total as u32));
+                                let (e1, e2) = (ref_qratio(q1, q3, pint, 0), ref_qratio(q2, q3, pint, 0));
+                                assert_eq!(h.qratios().value(), e2 << 4 | e1, "len {len}+{tl} opt {opt:#x}");
+                                for k in 0..$sb {
+                                    let base = 4 * ($sb - 1 - k);
+                                    let e = ref_quartile(pat[base], q1, q2, q3)
+                                        | (ref_quartile(pat[base + 1], q1, q2, q3) << 2)
+                                        | (ref_quartile(pat[base + 2], q1, q2, q3) << 4)
+                                        | (ref_quartile(pat[base + 3], q1, q2, q3) << 6);
+                                    assert_eq!(h.body().data()[k], e);
+                                }
+                            }
+                            (a, b) => panic!("len {len}+{tl} opt {opt:#x}: got {a:?}, reference {b:?}"),
+                        }
+                    }
+                }
+            }
+        }
+    };
+}
+#[cfg(test)]
+native_f!(native_f_short, GShort, 48, 12, 1);
+#[cfg(test)]
+native_f!(native_f_normal, GNormal, 128, 32, 1);
+#[cfg(test)]
+native_f!(native_f_normall, GNormalL, 128, 32, 3);
+#[cfg(test)]
+native_f!(native_f_long, GLong, 256, 64, 1);
+#[cfg(test)]
+native_f!(native_f_longl, GLongL, 256, 64, 3);
